@@ -10,7 +10,7 @@ VERIFIES = (KH_VERIFY, ROOT_VERIFY, DELEG_VERIFY)
 
 
 def run(chk, prog):
-    chk.rules_live = ["R1", "R2", "R3", "R4", "R5", "R6", "R7", "R8", "R9", "R10", "R11"]
+    chk.rules_live = ["R1", "R2", "R3", "R4", "R5", "R6", "R7", "R8", "R9", "R10", "R11", "R12"]
     chk.explanation = (
         "Structural writer/reader rules over the editor: SignedRole is constructed only where its "
         "digest and length are computed from the very buffer that is written; snapshot/timestamp "
@@ -32,6 +32,7 @@ def run(chk, prog):
     r9_target_names(chk, prog)
     r10_removal(chk, prog)
     r11_sign_order(chk, prog)
+    r12_writes_all(chk, prog)
 
 
 def r1_signed_role(chk, prog):
@@ -512,3 +513,51 @@ def r11_sign_order(chk, prog):
                 path=ctx.describe_path(p))
     n = len(ctx.calls("tough::schema::Targets::validate"))
     chk.require(n >= 1, "R11", ctx.fn, "validates", "sign() does not run Targets::validate()")
+
+
+def r12_writes_all(chk, prog):
+    """SignedRepository::write writes every role it holds (root, targets, snapshot, timestamp, and the
+    delegated roles when present); SignedDelegatedTargets::write writes each delegated role"""
+    SRW = "tough::editor::signed::SignedRepository::write"
+    ctx = async_body(prog, SRW)
+    if ctx is None:
+        chk.anchor_missing("R12", SRW)
+        return
+    chk.analysed_body(ctx.body)
+    okb = ctx.ok_return_blocks()
+    seen = set()
+    for bb, t in ctx.calls(SR + "::<T>::write", "tough::editor::signed::SignedDelegatedTargets::write"):
+        recv = ctx.origins.of_operand(t.args[0])
+        flds = set(o.fields[:1] for o in recv if o.kind in ("upvar", "param"))
+        for fl in flds:
+            seen.add(fl[0] if fl else "?")
+        pos = ctx.track_call(bb).pos_edges(0)
+        if flds == {("delegated_targets",)}:
+            continue
+        p = ctx.cfg.witness_path(okb, pos)
+        chk.require(bool(pos) and p is None, "R12", ctx.fn, "always-writes:" + "/".join(sorted(f[0] for f in flds if f)),
+                    "SignedRepository::write can return Ok without having written this role", ctx.site(bb), path=ctx.describe_path(p))
+    chk.require({"root", "targets", "snapshot", "timestamp", "delegated_targets"} <= seen, "R12", ctx.fn, "writes-every-role",
+                "SignedRepository::write writes %s; all of root, targets, snapshot, timestamp and delegated_targets must be written" % sorted(seen))
+    # delegated: on the Some edge it is written and its error propagates
+    from .c05 import option_switch_edges
+    some, none = option_switch_edges(ctx, lambda o: o.kind in ("upvar", "param") and o.fields[:1] == ("delegated_targets",))
+    dcalls = [bb for bb, t in ctx.calls("tough::editor::signed::SignedDelegatedTargets::write")]
+    dpos = []
+    for bb in dcalls:
+        dpos.extend(ctx.track_call(bb).pos_edges(0))
+    p = ctx.cfg.witness_path(okb, dpos, starts=[e[1] for e in some]) if some else [0]
+    chk.require(bool(some) and bool(dpos) and p is None, "R12", ctx.fn, "delegated-written-when-present",
+                "with delegated roles present, Ok can be returned without writing them", path=ctx.describe_path(p))
+    dctx = async_body(prog, "tough::editor::signed::SignedDelegatedTargets::write")
+    if dctx is not None:
+        chk.analysed_body(dctx.body)
+        ws = dctx.calls(SR + "::<T>::write")
+        okl = False
+        for bb, t in ws:
+            loop = next((c for c in dctx.cfg.sccs() if bb in c), None)
+            neg = dctx.track_call(bb).neg_edges(0)
+            r = dctx.cfg.reach_from_edges(neg) if neg else set()
+            okl = loop is not None and bool(neg) and not (r & set(dctx.ok_return_blocks()))
+        chk.require(okl, "R12", dctx.fn, "every-delegated-role-written",
+                    "SignedDelegatedTargets::write does not write every role in a loop with errors propagated")
